@@ -1,2 +1,6 @@
-// harnesses for this module (filled in below)
+// Kani harnesses for src/regret.rs (module `crate::regret::verif_kani`).
+// NOTE: none registered. `regret::expected` / `optimal_deviations` walk the tree with explicit
+// Vec stacks; CBMC's symbolic execution does not get through even `expected` on a 7-node tree
+// within 10 minutes (symbolic Vec lengths: every pop/push becomes a case split over all slots), so
+// property C01 is listed as not applicable. The probe harness is kept in regret_probe.rs.disabled.
 #![allow(dead_code, unused_imports, clippy::all)]
